@@ -6,6 +6,7 @@ server compiles to its base path, and the spec's server/candidate enumeration co
 import KinModel.RouterSpec
 import KinModel.Lemmas.C09Gorilla
 import KinModel.Lemmas.C09Spec
+import KinModel.Lemmas.C09Legacy
 namespace KinModel.Router
 
 def gconv : GTok → STok
@@ -522,5 +523,108 @@ theorem match_of_cand (e : Bool) (d : Doc) (hd : PlainDoc d) (req : Req) (pd : P
     obtain ⟨_, rfl⟩ := ssubst_lits_inv _ _ _ hp
     obtain ⟨h1, h2, h3, h4⟩ := fill rem ref ⟨[], [], dropOneSlash s.url, none, ref⟩ (dropOneSlash s.url) rfl rfl rfl hnb1 hnb2 hsp hcand
     exact ⟨h1, h2, _, hes, h3.symm, h4⟩
+
+/-! ### literal templates: the spec's notion and the matching order's count of '}' agree where mux accepts the template -/
+
+theorem takeBrace_name_no_close : ∀ {s n r : Str}, takeBrace s = some (n, r) → '}' ∉ n
+  | [], _, _, h => by simp [takeBrace] at h
+  | c :: cs, n, r, h => by
+    simp only [takeBrace] at h
+    split at h
+    · cases h; simp
+    · rename_i hc
+      simp only [Option.map_eq_some_iff] at h
+      obtain ⟨⟨a, b⟩, hb, he⟩ := h
+      cases he
+      simp only [List.mem_cons, not_or]
+      exact ⟨fun e => hc e.symm, takeBrace_name_no_close hb⟩
+
+theorem countChar_append (c : Char) (a b : Str) : countChar c (a ++ b) = countChar c a + countChar c b := by
+  simp [countChar, List.filter_append]
+
+theorem countChar_of_not_mem {c : Char} : ∀ {a : Str}, c ∉ a → countChar c a = 0
+  | [], _ => rfl
+  | d :: ds, h => by
+    simp only [List.mem_cons, not_or] at h
+    have : ¬ d = c := fun e => h.1 e.symm
+    simp [countChar, List.filter_cons, this]
+    simpa [countChar] using countChar_of_not_mem h.2
+
+/-- the number of '}' in a template that mux accepts is its number of variables -/
+theorem nvars_of_gparse : ∀ (f : Nat) (s : Str) (gt : List GTok), gparse f s = some gt →
+    countChar '}' s = (varNamesG gt).length := by
+  intro f
+  induction f with
+  | zero => intro s gt h; simp [gparse] at h
+  | succ f ih =>
+    intro s gt h
+    cases s with
+    | nil => simp [gparse] at h; subst h; rfl
+    | cons c cs =>
+      simp only [gparse] at h
+      split at h
+      · rename_i hc
+        subst hc
+        split at h
+        · simp at h
+        · rename_i name rest hb
+          split at h
+          · simp at h
+          · simp only [Option.map_eq_some_iff] at h
+            obtain ⟨gt', hg, rfl⟩ := h
+            have e := takeBrace_eq hb
+            have hn := takeBrace_name_no_close hb
+            have e2 : '{' :: cs = ('{' :: name) ++ ('}' :: rest) := by rw [e]; simp
+            rw [e2, countChar_append]
+            have h1 : countChar '}' ('{' :: name) = 0 := by
+              apply countChar_of_not_mem
+              simp only [List.mem_cons, not_or]
+              exact ⟨by decide, hn⟩
+            have h2 : countChar '}' ('}' :: rest) = countChar '}' rest + 1 := by
+              simp [countChar, List.filter_cons]
+            rw [h1, h2, ih rest gt' hg]
+            simp [varNamesG]
+      · rename_i hc
+        split at h
+        · simp at h
+        · rename_i hc2
+          simp only [Option.map_eq_some_iff] at h
+          obtain ⟨gt', hg, rfl⟩ := h
+          have : countChar '}' (c :: cs) = countChar '}' cs := by
+            simp [countChar, List.filter_cons, hc2]
+          rw [this, ih cs gt' hg]
+          simp [varNamesG]
+
+theorem isLiteralT_iff_nvars {t : Str} {tt : List GTok} (h : gparseS t = some tt) : isLiteralT t = true ↔ nvars t = 0 := by
+  unfold isLiteralT nvars
+  rw [sparseS_of_gparseS h, varNamesG_conv, nvars_of_gparse _ _ _ h]
+  simp
+
+/-- a server that applies to a path item of a plain document has neither schemes nor host nor port updater, and a
+    brace-free base path -/
+theorem effSrv_plain {d : Doc} (hd : PlainDoc d) {pd : PathDecl} (hpd : pd ∈ d.paths) {g : GSrv} (hg : EffSrv d pd g) :
+    g.schemes = [] ∧ g.host = [] ∧ g.upd = none ∧ '{' ∉ g.base ∧ '}' ∉ g.base := by
+  have hcf : ∀ mk l, (∀ s ∈ l, PlainRel s) → CompiledFrom mk l g → g.schemes = [] ∧ g.host = [] ∧ g.upd = none ∧ '{' ∉ g.base ∧ '}' ∉ g.base := by
+    intro mk l hl hcf
+    rcases hcf with ⟨_, rfl⟩ | ⟨i, s, hi, hmks⟩
+    · simp [noSrv]
+    · have hs := hl s (getElem?_mem' hi)
+      rw [gMakeServer_plainRel _ s hs] at hmks
+      simp only [Option.some.injEq] at hmks
+      subst hmks
+      exact ⟨rfl, rfl, rfl, fun hm => hs.2.1 (mem_dropOneSlash hm), fun hm => hs.2.2.1 (mem_dropOneSlash hm)⟩
+  unfold EffSrv at hg
+  split at hg
+  · exact hcf _ _ hd.1 hg
+  · exact hcf _ _ (hd.2 pd hpd).1 hg
+
+theorem template_parses {d : Doc} (hd : PlainDoc d) {pd : PathDecl} (hpd : pd ∈ d.paths) {g : GSrv} (hg : EffSrv d pd g)
+    {r : GRoute} (hmk : mkRoute pd g = some r) : ∃ tt, gparseS pd.template = some tt := by
+  obtain ⟨_, _, _, h1, h2⟩ := effSrv_plain hd hpd hg
+  obtain ⟨_, _, _, e4, _⟩ := mkRoute_some hmk
+  rw [gparseS_lits _ _ h1 h2] at e4
+  simp only [Option.map_eq_some_iff] at e4
+  obtain ⟨tt, htt, _⟩ := e4
+  exact ⟨tt, htt⟩
 
 end KinModel.Router
